@@ -173,6 +173,10 @@ uint64_t steps();
 uint64_t current_event_hash();
 void set_create_fail(int nth_from_now, int err); // the n-th following pthread_create (1 = next) fails with err
 void set_affinity_fail(int nth_from_now, int err);
+// which: 1 pthread_attr_init, 2 pthread_attr_setstacksize, 3 pthread_attr_getstacksize (armed for the calling thread, one shot)
+void set_attr_fail(int which, int err);
+// backtrace(): 0 real, 1 unsupported (returns 0), 2 at most one frame, 3 at most two frames (cfg "backtrace_mode")
+int backtrace_mode();
 bool mutex_held_any();
 int unjoined_threads(); // DONE but neither joined nor detached, plus not DONE
 
